@@ -94,3 +94,8 @@ Fixpoint mono_from (b : Z) (ops : list lsop) : Prop :=
   | OSet _ _ :: r => mono_from b r
   | ORange p _ :: r => b <= p /\ mono_from p r
   end.
+
+(* the whole pipeline on a flattened event sequence *)
+Definition verdict_events (disable : list N) (fr_items : list (Z * Z)) (return_lines : list Z)
+    (evs : list event) (e : err) : res (bool * option Z) :=
+  bind (build_events disable fr_items evs) (fun st => filter_error st return_lines e).
